@@ -242,7 +242,8 @@ class ProgGen(object):
             self.pre = (self.eword(self.e)[0], self.e, self.erel(), self.unit)
             w, self.e = self.eword(self.e - amt)
             self.retracted = amt
-            self.emit("G1 %s F2400" % w)
+            # some files give the retraction speed once (or never) and leave the F word out afterwards
+            self.emit("G1 %s%s" % (w, "" if self.r.random() < self.f.get("p_nofeed", 0.1) else " F2400"))
 
     def unretract(self):
         if self.fwret:
@@ -255,7 +256,7 @@ class ProgGen(object):
             else:
                 w, self.e = self.pre[0], self.pre[1]      # the exact word the file had before the retraction
             self.retracted = 0.0
-            self.emit("G1 %s F2400" % w)
+            self.emit("G1 %s%s" % (w, "" if self.r.random() < self.f.get("p_nofeed", 0.1) else " F2400"))
 
     def is_retracted(self):
         return bool(self.retracted or self.fwret)
